@@ -874,8 +874,9 @@ W["inequality_assertion"] = dict(
         f"iff(U, BE(kbs) < BE(nbs))",
     ]},
     ensures=[f"implies(assert_less_than, iff(U, {_CNT} < k))", f"implies(not assert_less_than, iff(U, {_CNT} > k))"],
-    assumptions=["pop_count (symbolic n) and _convert_to_negative_twos_complement (value 2^L - x, 0 for 0) are used by contract: assumed here for all widths, checked "
-                 "per shape in the S tier (C10/C12) and on large n by C10.large; _make_same_length's contract is proved (make_same_length), ripple_carry's sum "
+    assumptions=["pop_count (symbolic n) is used by contract: assumed here for all widths, checked per shape in the S tier (C10/C12) and on large n by C10.large; "
+                 "_convert_to_negative_twos_complement's contract (value 2^L - x, 0 for 0) is proved (convert_to_negative_twos_complement), "
+                 "_make_same_length's contract is proved (make_same_length), ripple_carry's sum "
                  "equation is the proved contract of C12.wp.ripple_carry (restricted to its semantic part)",
                  "the unit clauses that fix the fresh threshold variables to the bits of k are definitions (assumed), the final unit clause is collected in the ghost U"],
 )
@@ -1009,4 +1010,49 @@ W["experiments_to_dicts"] = dict(
     native=dict(call=lambda f, experiments, keys: f(experiments, keys), domain=_ett_domain, check=_etd_check, skip_requires=True, skip_ensures=True),
     assumptions=["builtin contracts of zip(*rows) and dict(zip(keys, tuple)) (DESIGN 3.4): the dict has exactly the given keys and the value under keys[j] is the tuple's "
                  "entry at some position j2 >= j holding the same key (the last one)"],
+)
+
+
+# ------------------------------------------------------------------ cnf.py: CNF._convert_to_negative_twos_complement (C10) — the callee contract _NEG2C, now proved
+# sem(c): "the assignment val satisfies the CNF object c"; building a formula and prepending it makes it part of the final formula, which val satisfies
+# (the scheme of 11.6: definitional clauses enter as postconditions of the callee contracts)
+_LB = "len(bits)"
+W["convert_to_negative_twos_complement"] = dict(
+    id="convert_to_negative_twos_complement", target="sweetpea._internal.core.cnf:CNF._convert_to_negative_twos_complement", prop=["C10"],
+    params={"bits": "list[int]"},
+    ghost={"SS0": ("list[int]", "[]"), "C0": ("int", "1")},
+    spec_funcs={"val": (["int"], "bool"), "sem": (["obj"], "bool")}, macros=_BE_MACROS, lemmas=["sum_ranges", "binary"], ms=45000,
+    identity_calls=["Var"], identity_attrs=["value"], invert_is_neg=True,
+    uses={"self.get_n_fresh": _GET_N_FRESH,
+          "CNF": dict(params={}, returns="obj", ensures=["sem(result)"]),
+          "CNF.xnor_vars": dict(params={"a": "int", "b": "int"}, requires=["a != 0", "b != 0"], returns="obj", ensures=["iff(sem(result), iff(L(a), L(b)))"]),
+          "obj.__add__": dict(params={"a": "obj", "b": "obj"}, returns="obj", ensures=["iff(sem(result), sem(a) and sem(b))"]),
+          "self.prepend": dict(params={"cnf": "obj"}, ensures=["sem(cnf)"]),
+          "self.zero_out": _ZERO_OUT,
+          "self.set_to_one": dict(params={"variable": "int"}, requires=["variable != 0"], ensures=["L(variable)"]),
+          "self.ripple_carry": dict(_RIPPLE_SEM, ghost_after=["SS0 = call_result[1]", "C0 = call_result[0]"])},
+    requires=_NEG2C["requires"],
+    loops={0: dict(index="it", invariant=[
+        "len(flipped_bits) == len(bits)", "forall(j, 0, len(flipped_bits), flipped_bits[j] > 0)",
+        "iff(sem(flipped_cnf), forall(j, 0, it, iff(L(flipped_bits[j]), not L(bits[j]))))"])},
+    post_hints=[
+        f"forall(j, 0, {_LB}, iff(L(flipped_bits[j]), not L(bits[j])))",
+        f"forall(j, 0, {_LB}, wbit(flipped_bits[{_LB} - 1 - j], j) + wbit(bits[{_LB} - 1 - j], j) == pow2(j))",
+        f"len(flipped_bits) == {_LB} and len(one_vars) == {_LB} and len(SS0) == {_LB} and len(ss) == {_LB}",
+        f"BE(flipped_bits) + BE(bits) == pow2({_LB}) - 1",
+        "forall(j, 1, len(one_vars), wbit(one_vars[len(one_vars) - 1 - j], j) == 0)",
+        "sum(j, 0, 1, wbit(one_vars[len(one_vars) - 1 - j], j)) == 1",
+        "sum(j, 1, len(one_vars), wbit(one_vars[len(one_vars) - 1 - j], j)) == 0",
+        "BE(one_vars) == 1",
+        f"sum(j, 0, {_LB}, wbit(SS0[j], j)) + wbit(C0, {_LB}) == pow2({_LB}) - BE(bits)",
+        f"0 <= sum(j, 0, {_LB}, wbit(SS0[j], j)) and sum(j, 0, {_LB}, wbit(SS0[j], j)) < pow2({_LB})",
+        f"0 <= BE(bits) and BE(bits) < pow2({_LB})",
+        f"forall(j, 0, {_LB}, ss[{_LB} - 1 - j] == SS0[j])",
+        f"BE(ss) == sum(j, 0, {_LB}, wbit(SS0[j], j))",
+        f"wbit(C0, {_LB}) == 0 or wbit(C0, {_LB}) == pow2({_LB})",
+    ],
+    ensures=_NEG2C["ensures"],
+    assumptions=["callee contracts assumed here and checked per shape in the S tier of C10/C12: CNF.xnor_vars (two clauses, a <-> b), CNF.__add__ (conjunction), zero_out, "
+                 "set_to_one, get_n_fresh; ripple_carry's contract is proved (C12.wp.ripple_carry); `~Var` is Var(-value) (cnf.py Var.__invert__), a generator "
+                 "expression consumed once is read as the list of its elements"],
 )
